@@ -18,6 +18,8 @@ PAIRS = {
     "big": (64, 32, 64, 32, 1, 1, 1, 1),
     "zst": (0, 1, 0, 1, 1, 0, 1, 0),
     "u32": (4, 4, 4, 4, 0, 1, 0, 1),
+    "p2t": (16, 8, 16, 8, 0, 1, 1, 1),   # plain input, output with drop glue
+    "t2p": (16, 8, 16, 8, 1, 1, 0, 1),   # input with drop glue, plain output
     "m_align_up": (16, 8, 16, 16, 1, 1, 1, 1),
     "m_align_down": (16, 8, 16, 4, 1, 1, 0, 1),
     "m_size_up": (16, 8, 24, 8, 1, 1, 1, 1),
@@ -27,7 +29,7 @@ PAIRS = {
     "m_both": (64, 32, 16, 8, 1, 1, 1, 1),
     "m_u32_align": (4, 4, 4, 2, 0, 1, 0, 0),
 }
-MAIN = ["tok", "big", "zst", "u32"]
+MAIN = ["tok", "big", "zst", "u32", "p2t", "t2p"]
 MISMATCH = [p for p in PAIRS if p.startswith("m_")]
 
 
